@@ -136,6 +136,10 @@ def run(tier):
     # the goyacc driver itself (LRDriver.tla): traces of yyParse on broken programs, action-reported errors and random bytes are
     # validated by TLC against LRTrace.tla; every detection with Errflag = 0 must reach the callback, an abort needs a report,
     # recovery only pops and discards
+    nobl = core.tlapm("LRDriverProof", deps_of=["LRDriver"])      # the driver invariants hold for every grammar (tables open), not only within TLC's bounds
+    check.cov["tlaps_obligations_proved"] = nobl
+    check.cov["tlc_runs"].append({"spec": "LRDriverProof (tlapm: IndInit, IndStep, IndImplies, Safety)", "kind": "proof", "distinct_states": 0,
+                                  "states_generated": 0, "depth": 0, "wall_s": 0, "obligations_proved": nobl})
     cap = 250 if tier == "quick" else 4000
     lsrc = [(f, b.decode("latin-1")) for f, _, b in broken[:: max(1, len(broken) // cap)]]
     lsrc += [("5", p["src"]) for p in sem[::7]] + [("7", p["src"]) for p in sem[::11]]
